@@ -14,9 +14,85 @@ def describe(tier):
     return d
 
 
+class _Ctx:
+    def __init__(self):
+        self.viol = []
+
+    def v(self, prop, site, opd, detail):
+        import numpy
+
+        self.viol.append({"property": prop, "site": site, "op": opd, "detail": detail, "state": hist.key_from_dense(numpy.zeros((0,), dtype=numpy.int64), 0), "depth": 0})
+
+
+def construction_family(res, tier):
+    """`construction from arrays` on BOTH strategies of from_array: every small array x embedding x common (omitted / present / absent) x counts x mapping,
+    and the sparse 79..120-cell arrays that take the row-scan strategy (k rare cells among 6 slots incl. first/last rows, repeated rare values): the result
+    must satisfy every C07 invariant against the (mapped) array."""
+    import numpy
+
+    from catii.iindexes import iindex
+
+    from .. import models as M
+    from . import c01
+
+    ctx = _Ctx()
+    n = 0
+
+    def one(ea, common, counts, mapping, opd):
+        nonlocal n
+        n += 1
+        try:
+            kw = {}
+            if common is not None:
+                kw["common"] = common
+            idx = iindex.from_array(ea, counts=dict(counts) if counts is not None else None, mapping=dict(mapping) if mapping else None, **kw)
+        except Exception:
+            return  # construction failures are C01's business
+        dense = ea if not mapping else numpy.vectorize(mapping.get, otypes=[numpy.int64])(ea)
+        hist.wellformed(idx, dense, opd, ctx, "from_array")
+
+    def countsof(ea):
+        c = {}
+        for v in ea.flat:
+            c[int(v)] = c.get(int(v), 0) + 1
+        return c
+
+    shapes = [(k,) for k in range(1, 5)] + [(2, 2), (3, 2), (2, 3)]
+    embs = [(0, 1, 2, 3), (5, -1, 300, 7)]
+    for sh in shapes:
+        for a in M.all_arrays(sh, range(3)):
+            for emb in embs:
+                ea = numpy.array(emb[:3], dtype=numpy.int64)[a]
+                for mk in c01.MAPPINGS:
+                    mapping = c01.make_mapping(mk, emb)
+                    for common in (None, emb[0], emb[1], emb[3]):
+                        cm = common if (common is None or not mapping) else mapping.get(common, common)
+                        for uc in (False, True):
+                            one(ea, cm, countsof(ea) if uc else None, mapping, {"op": "from_array", "array": ea.tolist(), "mapping": mk, "common": cm, "counts": uc})
+    for cfg in c01.rowscan_configs(tier):
+        emb = c01.ROWSCAN_EMBS[cfg["ei"]]
+        if emb[5] >= 2 ** 32:
+            emb = emb[:5] + (1 << 20,) + emb[6:]
+        for a, cells, vals in c01.rowscan_arrays(tuple(cfg["shape"]), cfg["k"], emb, cfg["dup"]):
+            many = {v: v for v in emb}
+            many[emb[2]] = emb[1]
+            for mk, mapping in (("none", None), ("many", many)):
+                for common in (None, emb[0], emb[6]):
+                    for uc in (False, True):
+                        one(a, common, countsof(a) if uc else None, mapping,
+                            {"op": "from_array", "rowscan": True, "shape": cfg["shape"], "cells": list(cells), "values": [int(v) for v in vals], "dominant": emb[0], "mapping": mk, "common": common, "counts": uc})
+    return ctx.viol, {"construction_cases": n}
+
+
 def main(tier, all_violations=False, t0=None):
-    return histprop.run(__import__("vf.props.c07", fromlist=["x"]), tier, all_violations, t0)
+    return histprop.run(__import__("vf.props.c07", fromlist=["x"]), tier, all_violations, t0, extra=construction_family)
 
 
 def replay(case, site=None):
+    if case["op"].get("op") == "from_array":
+        viol, _ = construction_family(None, case.get("tier", "quick"))
+        viol = [v for v in viol if v["op"] == case["op"]]
+        for v in viol:
+            print("  %s :: %s" % (v["site"], v["detail"][:400]))
+        return bool(viol)
     return histprop.replay(case)
